@@ -411,6 +411,9 @@ func runDriver(args []string) int {
 	for a := range exts {
 		assumptions = append(assumptions, a)
 	}
+	for _, d := range w.DefaultFramed {
+		assumptions = append(assumptions, "unmodelled external given the default frame (arbitrary result, may write the elements of its slice arguments, nothing else): "+d)
+	}
 	assumptions = append(assumptions, pc.Assumptions...)
 	assumptions = append(assumptions,
 		"go/ssa construction, go/types and the Go compiler are trusted; the verified text is the SSA of /repo's working tree at check time",
